@@ -1,9 +1,10 @@
-\* C31 leg A thorough: <= 4 blocks, sources within 1..3, 2 groups, 2 workers; all inputs, group orders, interleavings
+\* C31 leg A thorough: <= 4 blocks (4-block inputs within one group, <= 3 blocks over 2 groups), sources within 1..3, 2 workers; all inputs, group orders, interleavings
 SPECIFICATION Spec
 CONSTANTS MaxBlocks = 4
           NSrc = 3
           NGrp = 2
           Workers = {"w1", "w2"}
+          FullGrpBlocks = 3
           CaseBlocks = 4
 INVARIANTS C31_HiddenOnlyIfCovered C31_KeptCoverEverySource C31_OutcomeIndependentOfSchedule NeverRemovesKept
 PROPERTIES Terminates
